@@ -404,7 +404,6 @@ package tacquito
 //@   loop 2 invariant[case2] buf == data[6 + len(f.Args) + len(f.ServerMsg) + len(f.Data) + sumLen(f.Args, rangeindex + 1):]
 //@   loop 2 invariant[case2] forall j int :: {f.Args[j]} 0 <= j && j < len(f.Args) ==> 6 + len(f.Args) + len(f.ServerMsg) + len(f.Data) + sumLen(f.Args, j) + len(f.Args[j]) <= len(data)
 //@   loop 2 invariant[case2] sumLen(a.Args, rangeindex + 1) == sumLen(f.Args, rangeindex + 1)
-//@   loop 2 invariant[case2] forall j int, i int :: 0 <= j && j <= rangeindex && 0 <= i && i < len(f.Args[j]) ==> a.Args[j][i] == f.Args[j][i]
 
 // ---------------------------------------------------------------------------
 // accounting.go (request)
